@@ -46,6 +46,7 @@ type Encoder struct {
 	notes    map[string]bool
 	ufuncs   map[string]bool
 	mapMemSorts map[string]string
+	absDiv      bool
 }
 
 func NewEncoder(p *Prog, mode string) *Encoder {
@@ -176,6 +177,19 @@ func (e *Encoder) basePrelude() {
 	e.addPre("nilptr", "(define-fun nil.ptr () Ptr (mk-ptr 0 0 0))")
 	e.addPre("nilslice", "(define-fun nil.slice () Slice (mk-slice 0 0 0 0 0))")
 	e.addPre("niliface", "(define-fun nil.iface () Iface (mk-iface 0 0))")
+}
+
+// sigKey: a function signature up to parameter names.
+func sigKey(sig *types.Signature) string {
+	var ps []string
+	for i := 0; i < sig.Params().Len(); i++ {
+		ps = append(ps, typeKey(sig.Params().At(i).Type()))
+	}
+	var rs []string
+	for i := 0; i < sig.Results().Len(); i++ {
+		rs = append(rs, typeKey(sig.Results().At(i).Type()))
+	}
+	return "f." + strings.Join(ps, ".") + ".to." + strings.Join(rs, ".")
 }
 
 func typeKey(t types.Type) string {
